@@ -186,9 +186,11 @@ Qed.
 Lemma sel_idx_bound n s sigma : sel_idx n s = Ok sigma -> Forall (fun k => (k < n)%nat) sigma.
 Proof.
   destruct s as [m|ix|i|a b c]; cbn [sel_idx].
-  - destruct (Nat.eqb_spec (length m) n) as [E|E]; [|discriminate].
-    intro H. injection H as <-. subst n.
-    eapply Forall_impl; [|apply mask_pos_bound]. cbn beta. intros; lia.
+  - destruct (Nat.eqb_spec (length m) n) as [E|E]; cbn [orb].
+    + intro H. injection H as <-. subst n.
+      eapply Forall_impl; [|apply mask_pos_bound]. cbn beta. intros; lia.
+    + destruct (Nat.eqb_spec (length m) 0) as [E0|E0]; [|discriminate].
+      intro H. injection H as <-. destruct m; [constructor|discriminate].
   - apply norm_idxs_bound.
   - apply norm_idxs_bound.
   - apply slice_idx_bound.
